@@ -46,6 +46,12 @@ def projector(V):
     return V @ np.linalg.solve(V.conj().T @ V, V.conj().T)
 
 
+def forms_of(rs, A):
+    """other bases of span(A): columns rescaled individually, unit-norm (non-orthogonal) columns, orthonormal"""
+    d = rs.uniform(0.3, 3.0, A.shape[1]) * rs.choice([-1.0, 1.0], A.shape[1])
+    return [A * d, A / np.linalg.norm(A, axis=0), np.linalg.qr(A)[0]]
+
+
 def outcome(f, *a):
     try:
         return "ok", f(*a)
@@ -75,6 +81,7 @@ def record_event(rs, op):
             pm, v = P.project(M), P.project(M[:, 0])
             ev["shape"] = {"q": sh(P.Q), "oq": sh(P.oQ), "pm": sh(pm), "pv": sh(v)}
             ev["preds"] = {"Hermitian": near(P.Q, P.Q.conj().T), "Idempotent": near(P.Q @ P.Q, P.Q) and near(P.project(pm), pm),
+                           "SubspaceOnly": all(near(Projection(F).Q, P.Q) for F in forms_of(rs, A)),
                            "FixesA": near(P.project(A), A), "Complementary": near(P.Q + P.oQ, I(r)) and near(P.oProject(A), 0 * A, 1.0)
                            and near(P.project(M) + P.oProject(M), M), "ReflectTwice": near(P.reflect(P.reflect(M)), M)}
     elif op == "chord":
@@ -93,6 +100,8 @@ def record_event(rs, op):
                            "ZeroOnEqualSubspaces": all(sq(float(f(A, A @ T))) <= TOL for f in (f1, f2, f3)),
                            "BasisInvariant": all(abs(sq(float(f(A @ T, B))) - sq(ds[0])) <= TOL for f in (f1, f2, f3)),
                            "UnitaryInvariant": all(abs(sq(float(f(U @ A, U @ B))) - sq(ds[0])) <= TOL for f in (f1, f2, f3)),
+                           "SubspaceOnly": all(abs(sq(float(f(Fa, Fb))) - sq(ds[0])) <= TOL and sq(float(f(Fa, A))) <= TOL
+                                               for f in (f1, f2, f3) for Fa in forms_of(rs, A) for Fb in [B] + forms_of(rs, B)),
                            "AnglesGiveDistance": abs(float(np.sum(np.sin(ang) ** 2)) - sq(ds[0])) <= TOL}
     elif op == "chordx":
         # subspaces of DIFFERENT dimension: d["cols"] = n1, d["n"] = n2; the projector-based routines are defined
@@ -114,6 +123,8 @@ def record_event(rs, op):
                            "Symmetric": all(abs(sq(f(B, A)) - sq(f(A, B))) <= TOL for f in (f1, f2)),
                            "BasisInvariant": all(abs(sq(f(A @ T1, B @ T2)) - ref) <= TOL for f in (f1, f2)),
                            "UnitaryInvariant": all(abs(sq(f(U @ A, U @ B)) - ref) <= TOL for f in (f1, f2)),
+                           "SubspaceOnly": all(abs(sq(f(Fa, Fb)) - ref) <= TOL and abs(sq(f(Fb, Fa)) - ref) <= TOL
+                                               for f in (f1, f2) for Fa in forms_of(rs, A) for Fb in [B] + forms_of(rs, B)),
                            "NestedGivesHalfDimDiff": all(abs(sq(f(x, y)) - abs(c - n2) / 2) <= TOL for f in (f1, f2)
                                                          for x, y in ((big, inside), (inside, big))),
                            "AnglesSumCos2IsTrace": abs(float(np.sum(np.cos(ang) ** 2)) - float(np.real(np.trace(PA @ PB)))) <= TOL}
